@@ -2,6 +2,7 @@
 pub mod generated {
     pub mod builder_stubs;
     pub mod decls;
+    pub mod sr_ops;
 }
 pub mod util;
 pub mod gram;
@@ -10,6 +11,7 @@ pub mod model;
 pub mod geninst;
 pub mod genmod;
 pub mod refparse;
+pub mod dbgtree;
 pub mod textread;
 pub mod bmodel;
 pub mod loadcmp;
